@@ -25,7 +25,8 @@ EXPLANATION = (
     "positive pair is preceded on its path by a pop() of the matched ground-truth index from the available pool, the popped "
     "instance is the one appended, predictions are visited once each in a permutation (argsort), and the false negatives "
     "are exactly the pool after the loop; (greedy) greedy_matching removes, after each choice, every edge sharing the chosen "
-    "row or column, iterating backwards. Not decided: OKS=1 for identical poses, monotonicity, translation invariance."
+    "row or column, iterating backwards; (shape) every boolean-mask index in compute_oks has exactly the shape of the axes it "
+    "indexes, compared symbolically over the shapes the function asserts (NumPy masks do not broadcast). Not decided: OKS=1 for identical poses, monotonicity, translation invariance."
 )
 TRUSTED = ["CPython ast", "networkx reachability", "numpy: exp(-inf) == 0, argsort returns a permutation, list.pop(i) removes exactly element i"]
 
@@ -131,6 +132,112 @@ def check_dep(prog: Program, res: Result) -> None:
     res.floor(R, 9)
 
 
+# ---------------------------------------------------------------- symbolic shapes of boolean-mask indexing
+def _shape_env(fn: ast.AST) -> dict:
+    """Shapes the function itself declares: `a, b = X.shape`, `assert X.shape == (...)`, `n = X.shape[k]`."""
+    env: dict = {}
+    for st in walk_function(fn):
+        if isinstance(st, ast.Assign) and isinstance(st.value, ast.Attribute) and st.value.attr == "shape" and isinstance(st.targets[0], ast.Tuple):
+            env[norm(st.value.value)] = tuple(norm(e) for e in st.targets[0].elts)
+        elif isinstance(st, ast.Assert) and isinstance(st.test, ast.Compare) and isinstance(st.test.left, ast.Attribute) and st.test.left.attr == "shape" \
+                and isinstance(st.test.ops[0], ast.Eq) and isinstance(st.test.comparators[0], ast.Tuple):
+            env[norm(st.test.left.value)] = tuple(norm(e) for e in st.test.comparators[0].elts)
+    return env
+
+
+def _shape_of(e: ast.AST, env: dict, fn: ast.AST):
+    if isinstance(e, ast.Name):
+        if e.id in env:
+            return env[e.id]
+        d = astq.deref(fn, e, 1)
+        return _shape_of(d, env, fn) if d is not e and d is not None else None
+    if isinstance(e, ast.Call):
+        f = norm(e.func).split(".")[-1]
+        if f == "expand_dims" and e.args:
+            base = _shape_of(e.args[0], env, fn)
+            ax = astq.const_value(astq.call_arg(e, 1, "axis"))
+            if base is None or not isinstance(ax, int):
+                return None
+            ax = ax if ax >= 0 else len(base) + 1 + ax
+            return base[:ax] + ("1",) + base[ax:]
+        if f == "broadcast_to" and len(e.args) == 2:
+            tgt = e.args[1]
+            if isinstance(tgt, ast.Attribute) and tgt.attr == "shape":
+                return _shape_of(tgt.value, env, fn)
+            if isinstance(tgt, ast.Tuple):
+                return tuple(norm(x) for x in tgt.elts)
+            return None
+        if f == "reshape" and len(e.args) == 2 and isinstance(e.args[1], ast.Tuple):
+            return tuple(norm(x) for x in e.args[1].elts)
+        if f == "repeat" and e.args:
+            base = _shape_of(e.args[0], env, fn)
+            ax = astq.const_value(astq.call_arg(e, 2, "axis"))
+            rep = astq.call_arg(e, 1, "repeats")
+            if base is not None and isinstance(ax, int) and rep is not None and base[ax] == "1":
+                ax = ax if ax >= 0 else len(base) + ax
+                return base[:ax] + (norm(rep),) + base[ax + 1:]
+            return None
+        if f in ("logical_not", "copy", "astype") and (e.args or isinstance(e.func, ast.Attribute)):
+            return _shape_of(e.args[0] if e.args else e.func.value, env, fn)
+    if isinstance(e, ast.UnaryOp):
+        return _shape_of(e.operand, env, fn)
+    return None
+
+
+def _is_mask(e: ast.AST, fn: ast.AST) -> bool:
+    d = astq.deref(fn, e, 2) if isinstance(e, ast.Name) else e
+    if d is None:
+        return False
+    for c in ast.walk(d):
+        if isinstance(c, ast.Call) and norm(c.func).split(".")[-1] in ("isnan", "any", "all", "isfinite", "isinf", "logical_not", "logical_and", "logical_or"):
+            return True
+        if isinstance(c, ast.Name) and c is not d and c is not e and _is_mask_name(c, fn):
+            return True
+    return isinstance(d, ast.Compare)
+
+
+def _is_mask_name(n: ast.Name, fn: ast.AST) -> bool:
+    defs = [s for s in astq.assignments_to(fn, n.id) if isinstance(s, ast.Assign)]
+    return len(defs) == 1 and any(isinstance(c, ast.Call) and norm(c.func).split(".")[-1] in ("isnan", "any", "all") for c in ast.walk(defs[0].value))
+
+
+def check_shape(prog: Program, res: Result) -> None:
+    """NumPy boolean-mask indexing does not broadcast: the mask's shape must equal the indexed axes exactly.  compute_oks
+    is specified for (n_gt x n_pr x nodes) arrays, so a mask with a length-1 axis against the n_pr axis raises IndexError
+    for every n_pr != 1.  Shapes are the ones the function asserts itself; dims are compared symbolically."""
+    R = "C15-shape"
+    fi = prog.func(f"{EV}:compute_oks")
+    res.touch(fi)
+    env = _shape_env(fi.node)
+    n = 0
+    for sub in walk_function(fi.node):
+        if not isinstance(sub, ast.Subscript):
+            continue
+        idx = list(sub.slice.elts) if isinstance(sub.slice, ast.Tuple) else [sub.slice]
+        pos = 0
+        for e in idx:
+            if isinstance(e, ast.Slice) or isinstance(astq.const_value(e), int):
+                pos += 1
+                continue
+            if not _is_mask(e, fi.node):
+                pos += 1
+                continue
+            ms, ash = _shape_of(e, env, fi.node), _shape_of(sub.value, env, fi.node)
+            where = f"{fi.module.relpath}:{sub.lineno}"
+            if ms is None or ash is None:
+                raise AnalysisError(f"compute_oks: shape of mask `{short(e, 40)}` or of `{short(sub.value, 20)}` is not declared ({where})")
+            n += 1
+            seg = ash[pos:pos + len(ms)]
+            bad = [(i + pos, a, m) for i, (a, m) in enumerate(zip(seg, ms)) if a != m]
+            ok = len(seg) == len(ms) and not bad
+            res.ob(R, ok, fi.qualname, f"mask {ms} matches axes {pos}.. of {short(sub.value, 20)} {ash}",
+                   f"`{short(sub, 60)}`: boolean mask of shape ({', '.join(ms)}) indexes axes {pos}.. of an array of shape ({', '.join(ash)}); boolean indexing does not "
+                   f"broadcast, so this raises IndexError unless " + " and ".join(f"{a} == {m}" for _, a, m in bad) + " (OKS of several predictions at once is undefined)",
+                   where, sample={"mask": list(ms), "array": list(ash)})
+            pos += len(ms)
+    res.floor(R, 2)
+
+
 def check_range(prog: Program, res: Result) -> None:
     R = "C15-range"
     fi = prog.func(f"{EV}:compute_oks")
@@ -227,6 +334,7 @@ def check(prog: Program, res: Result) -> None:
     c11.check_pure(prog, res, al, rule="C15-pure", table=TABLE)
     res.floor("C15-pure", 10)
     check_dep(prog, res)
+    check_shape(prog, res)
     check_range(prog, res)
     check_pair(prog, res)
     check_greedy(prog, res)
@@ -241,7 +349,10 @@ VARIANTS = [
             "    # Compute the keypoint similarity as per the top of Eq. 1.\n    ks = np.exp(-(distance / normalization_factor))  # (n_gt, n_pr, n_nodes)\n    distance[:, missing_pr] = np.inf", "C15-dep"),
     Variant("dep-missing-pr-zero", F, "    distance[:, missing_pr] = np.inf\n", "    distance[:, missing_pr] = 0.0\n", "C15-dep"),
     Variant("dep-wrong-mask", F, "    missing_gt = np.any(np.isnan(points_gt), axis=-1)  # (n_gt, n_nodes)", "    missing_gt = np.any(np.isnan(points_pr), axis=-1)  # (n_gt, n_nodes)", "C15-dep"),
-    Variant("dep-gt-not-zeroed", F, "    ks[np.expand_dims(missing_gt, axis=1)] = 0\n", "", "C15-dep"),
+    Variant("dep-gt-not-zeroed", F, "    ks[np.broadcast_to(np.expand_dims(missing_gt, axis=1), ks.shape)] = 0\n", "", "C15-dep"),
+    Variant("shape-mask-not-broadcast", F, "    ks[np.broadcast_to(np.expand_dims(missing_gt, axis=1), ks.shape)] = 0", "    ks[np.expand_dims(missing_gt, axis=1)] = 0", "C15-shape"),
+    Variant("shape-pr-mask-leading", F, "    distance[:, missing_pr] = np.inf\n", "    distance[missing_pr] = np.inf\n", "C15-"),
+    Variant("bp-shape-repeat", F, "    ks[np.broadcast_to(np.expand_dims(missing_gt, axis=1), ks.shape)] = 0", "    ks[np.repeat(np.expand_dims(missing_gt, axis=1), n_pr, axis=1)] = 0", None),
     Variant("dep-divide-by-nodes", F, "    oks = np.sum(ks, axis=-1) / n_visible_gt", "    oks = np.sum(ks, axis=-1) / n_nodes", "C15-dep"),
     Variant("range-sign-flip", F, "    ks = np.exp(-(distance / normalization_factor))", "    ks = np.exp((distance / normalization_factor))", "C15-range"),
     Variant("pure-expand-inplace", F, "    if scale is None:\n        scale = compute_instance_area(points_gt)", "    if scale is None:\n        scale = compute_instance_area(points_gt)\n    points_pr[np.isnan(points_pr)] = np.inf", "C15-pure"),
